@@ -165,7 +165,7 @@ var specs = map[string]*propSpec{
 		Rule: "case idx -> (valid configuration incl. all three modes and Length in {0,1,5,...}, byte string): cases 0..N are fixed hostile programs (EQU cycles with ;assert, self-growing EQUs, FOR blocks that fail half-way: bad count, missing ROF, lexer error after the block, nested, unterminated; NUL/^Z/invalid UTF-8; very long lines, deep parentheses, long sign runs); " +
 			"the rest: valid programs (generator of C03/C08), byte-level mutations (hostile bytes, deletions, flips, CR/CRLF, stripped final newline), token-level mutations (word replaced, lines duplicated/deleted/swapped/joined, pseudo-op lines inserted), the repository's own warriors (plain and mutated) and token soup over the real vocabulary. " +
 			"Inputs whose estimated FOR expansion exceeds 50k tokens are not generated. Process-level monitors around every CompileWarrior call, one call at a time per worker: panic; error xor warrior (zero WarriorData with an error, non-nil Code without); " +
-			"goroutine-leak monitor (goroutine count + goroutine profile: a goroutine with a gmars frame blocked in a channel operation after its creator returned can never run again); progress monitor (CPU time consumed inside the call against a fixed budget, deadlock = caller blocked in a channel operation with no runnable gmars goroutine); RSS cap 1 GiB. Thorough repeats 1/8 of the corpus on a -race worker. " +
+			"goroutine-leak monitor (goroutine count + goroutine profile: a goroutine with a gmars frame blocked in a channel operation after its creator returned can never run again); progress monitor (CPU time consumed inside the call against a fixed budget, deadlock = caller blocked in a channel operation with no runnable gmars goroutine); RSS cap 2 GiB (6 GiB under the race detector). Thorough repeats 1/8 of the corpus on a -race worker. " +
 			"non-trivial = input that gets past the lexer or exercises the FOR expander; distinct by (input class, outcome / error-site prefix)",
 		Assumptions: append([]string{
 			"'time proportional to the size' is decided only as: CPU time inside the call stays below a fixed budget (6 s; 60 s under the race detector), about 1000x the observed cost; an unbounded 'eventually' is not decidable by a finite run",
